@@ -2014,3 +2014,9 @@ package ice
 //@ // only when its decompressed bytes are used up ----
 //@ func (*Segment).copyStoredDocs
 //@   at loopexit#1 lemma[C03,C06] storedOffset >= len(uncompressed)
+//@
+//@ // ---- C14: every location slot of a build is carved from the build's own backing array at the
+//@ // running position (the previous slot's position plus its quota), whatever the recycled builder
+//@ // still holds in that slot ----
+//@ func (*interim).prepareDicts
+//@   loop 3 invariant[C14,C01] @slots_carved_at_the_running_position rangeindex >= 0 ==> len(s.Locs[rangeindex]) == 0 && arr(s.Locs[rangeindex]) == arr(locsBacking) && off(locsBacking) == off(s.Locs[rangeindex]) + s.numLocsPerPostingsList[rangeindex]
